@@ -105,7 +105,7 @@ def compute(tier, seed):
     t0 = time.time()
     allcases, stim = [], {"states": 0, "transitions": 0}
     for prop in PROPS:
-        r = verdict_gen.cases(prop, tier, seed, nrand=60 if tier == "quick" else 1500)
+        r = verdict_gen.cases(prop, tier, seed, nrand=60 if tier == "quick" else 400)
         stim["states"] += r["stats"]["distinct"]
         stim["transitions"] += r["stats"]["states"]
         for c in r["cases"]:
